@@ -9,7 +9,7 @@ from .. import core, check, cliflow, epcheck, gen, oracles, parseflow as pf, tex
 
 THEOREMS = ["C18_fields", "C18_stored_comments_are_trimmed", "C18_id", "C18_figure", "C18_consumption_line", "C18_production_line",
             "C18_auxiliary_line", "C18_output_line", "C18_demand_line", "C18_factor_line", "C18_metadata_line", "C18_factors_file",
-            "C18_saved_factors_evaluate_the_same"]
+            "C18_saved_factors_evaluate_the_same", "C18_components_file"]
 
 HALF2 = Fraction(5, 1000)
 HALF3 = Fraction(5, 10000)
